@@ -2110,7 +2110,9 @@ class Parameters:
         for pname, p in objects.items():
             if p.instantiate and pname != "name":
                 params_to_deepcopy[pname] = p
-            elif p.constant and pname != 'name':
+            elif p.constant and (pname != 'name' or 'name' not in self._param__private.values):
+                # a generated name is already held by the instance; a class
+                # default of `name` is referenced like any other constant
                 params_to_ref[pname] = p
 
         for p in params_to_deepcopy.values():
